@@ -204,9 +204,16 @@ func (m *Manager) AddBinding(mac net.HardwareAddr, ipv4 net.IP) error {
 
 	macKey := macToUint64(mac)
 
-	binding := SubscriberBinding{
-		Mode: uint8(m.mode),
+	// Start from the existing entry so that an IPv6 binding added with
+	// AddBindingV6 survives an IPv4 add/update (AddBindingV6 preserves the
+	// IPv4 part the same way).
+	var binding SubscriberBinding
+	if m.bindings != nil {
+		_ = m.bindings.Lookup(&macKey, &binding)
 	}
+	binding.Mode = uint8(m.mode)
+	binding.IPv4Addr = 0
+	binding.IPv4Valid = 0
 
 	if ipv4 != nil {
 		ip4 := ipv4.To4()
